@@ -2,6 +2,7 @@ package main
 
 import (
 	"fmt"
+	"net/textproto"
 	"go/types"
 	"sort"
 	"strings"
@@ -267,6 +268,9 @@ type VC struct {
 	usedSpecs map[string]bool
 	havocLog  []string // callees whose effect was havoc-everything
 	litNames  map[string]string
+	verHW     map[string]string // heap version -> allocation mark when it was created
+	baseHW    map[string]string
+	dropFacts map[int]bool // facts of failed obligations (excluded from cover queries)
 }
 
 type Obligation struct {
@@ -287,12 +291,13 @@ type Obligation struct {
 	Model   string
 	Expect  string // "unsat" normally; "sat" for cover/vacuity obligations
 	Known   bool   // listed in known_findings.txt
+	AssumeIdx int  // index of the fact that assumes this obligation after it was checked (-1: none)
 	Approx  bool   // Model comes from the quantifier-free part only
 	Witness map[string]string // source-level names used by the goal -> SMT terms
 }
 
 func newVC() *VC {
-	return &VC{declared: map[string]bool{}, strlits: map[string]string{}, kinds: map[string]*ArrKind{}, typeTags: map[string]int{}, usedSpecs: map[string]bool{}}
+	return &VC{declared: map[string]bool{}, strlits: map[string]string{}, kinds: map[string]*ArrKind{}, typeTags: map[string]int{}, usedSpecs: map[string]bool{}, verHW: map[string]string{}, baseHW: map[string]string{"0": "hw!0"}}
 }
 
 func (vc *VC) fresh(base string) string {
@@ -410,6 +415,9 @@ func (vc *VC) strLitFacts() []string {
 		out = append(out, fmt.Sprintf("(assert (= (blen %s) %d))", n, len(s)))
 		if l, ok := vc.litIfKnown(strings.ToLower(s)); ok {
 			out = append(out, fmt.Sprintf("(assert (= (str_lower %s) %s))", n, l))
+		}
+		if l, ok := vc.litIfKnown(textproto.CanonicalMIMEHeaderKey(s)); ok {
+			out = append(out, fmt.Sprintf("(assert (= (str_canon %s) %s))", n, l))
 		}
 		if l, ok := vc.litIfKnown(strings.TrimSpace(s)); ok {
 			out = append(out, fmt.Sprintf("(assert (= (str_trim %s) %s))", n, l))
